@@ -1497,12 +1497,165 @@ def search(ck):
     return True
 
 
+# ----------------------------------------------------------------------------------------------------------------
+# 5c. CXSMILES fragment grouping: the texts smiles() hands to the tokenizer after the contraction (intermediate state),
+#     against the grouping rule Model.CxGroups.contract_spec and the model of the code Reader.contract_roles
+
+def corr_contract(ck):
+    import sys
+    from chython import smiles
+    from chython.containers import ReactionContainer
+    rng = random.Random(f'{ck.seed}:c03cx')
+    sm = sys.modules['chython.files.daylight.smiles']
+    orig = sm.smiles_tokenize
+    seen = []
+
+    def spy(x):
+        seen.append(x)
+        return orig(x)
+    texts = ['C.O.N.S.C.O.N.S.C.O.[Na+].[Cl-]>>CC |f:2.3,10.11|', 'C.O>[Na+].[Cl-]>C.O.N.S.C.O.N.S.CC.[K+].[Br-] |f:2.3,11.12|',
+             'C.O.N.S.C.O.N.S.C.O.[Na+].[Cl-]>>CC |f:0.1,2.10,3.11|', 'C.O>>N.S |f:0.1,1.2|', 'C.O>>N |f:0.5|', 'C.O.N>> |f:0.1|', '>>C.O.N |f:1.2|',
+             'C>O.N>S |f:1.2|', 'C.O>N>S |f:0.2|', 'C.O.N>S.F>Cl.Br.I |f:0.2,3.4,6.7,1.5|', 'C.O>>N.S |f:3.2|', 'C.O.N>>S |f:2.0.1|']
+    texts += [gen_cx_reaction(rng) for _ in range(300 if ck.tier == 'quick' else 4000)]
+    items = []
+    sm.smiles_tokenize = spy
+    try:
+        for s in texts:
+            groups = cx_groups(s.split()[1])
+            if groups is None:
+                continue
+            used = [i for g in groups for i in g]
+            if len(set(used)) != len(used):
+                groups = None                      # repeated indices: no contraction at all
+            roles = [[x for x in part.split('.') if x] for part in s.split()[0].split('>')]     # reactants, reagents, products
+            del seen[:]
+            try:
+                rxn = smiles(s)
+            except Exception as e:  # noqa
+                if not isinstance(e, ValueError):
+                    report_crash(ck, s, {}, e)
+                continue
+            if not isinstance(rxn, ReactionContainer) or len(seen) != len(rxn.reactants) + len(rxn.products) + len(rxn.reagents):
+                continue
+            a, b = len(rxn.reactants), len(rxn.reactants) + len(rxn.products)
+            real = ' '.join(seen[:a]) + ' / ' + ' '.join(seen[a:b]) + ' / ' + ' '.join(seen[b:])
+            ck.case(('cx', s), nontrivial=bool(groups))
+            ck.count('contract:' + ('grouped' if groups else 'no contraction'))
+            if groups is None:
+                continue
+            items.append(((groups, roles[0], roles[2], roles[1]), real + ' = ' + real))
+    finally:
+        sm.smiles_tokenize = orig
+    bt = Batches(ck, 'c03cx', extra='Import ListNotations. Open Scope Z_scope.')
+    bt.add_chunked('b_contract', items, lambda t: f'({czss(t[0])}, {clist(cstr(x) for x in t[1])}, {clist(cstr(x) for x in t[2])}, {clist(cstr(x) for x in t[3])})', chunk=20)
+    ck.extra['contract_cases'] = len(items)
+    saved = coqcases_imports[0]
+    coqcases_imports[0] = 'Tokenize Parser Reader CxGroups'
+    try:
+        return bt.run(f'molecule texts smiles() tokenizes after the CXSMILES fragment contraction == Coq grouping rule contract_spec == Coq contract_roles '
+                      f'on {len(items)} reactions (up to 18 molecules, one- and two-digit indices, groups across roles / out of range)',
+                      single=lambda t: f'({czss(t[0])}, {clist(cstr(x) for x in t[1])}, {clist(cstr(x) for x in t[2])}, {clist(cstr(x) for x in t[3])})')
+    finally:
+        coqcases_imports[0] = saved
+
+
+# ----------------------------------------------------------------------------------------------------------------
+# 5d. parser(): the local variables after every token (intermediate states), read off the running function with sys.settrace,
+#     against the Coq machine Parser.step folded over the same tokens (Model.ParserTrace.trace_loop)
+
+def parser_trace(tokens, strong):
+    """the text of (atom_num, last_num, stack, cycles, previous, len(bonds)) each time parser() comes back to its `for` line, then the exception if any"""
+    import sys, ast, inspect
+    from chython.files.daylight import parser as pm
+    pm = sys.modules['chython.files.daylight.parser']
+    fn = pm.parser
+    tree = ast.parse(inspect.getsource(fn))
+    loops = [n for n in ast.walk(tree) if isinstance(n, ast.For) and ast.unparse(n.iter) == 'tokens']
+    assert len(loops) == 1, 'parser() no longer has exactly one loop over tokens'
+    for_line = fn.__code__.co_firstlineno + loops[0].lineno - 1
+    out = []
+    arrivals = [0]
+
+    def snap(f):
+        L = f.f_locals
+        return '|'.join([sz(L['atom_num']), sz(L['last_num']), ','.join(sz(x) for x in reversed(L['stack'])),
+                         ','.join(f'{sz(k)}:{sz(a)}:{sopt(stoken, ob)}:{sz(ind)}' for k, (a, ob, ind) in L['cycles'].items()),
+                         sopt(stoken, L['previous']), sz(len(L['bonds']))])
+
+    def local(f, event, arg):
+        if event == 'line' and f.f_lineno == for_line:
+            arrivals[0] += 1
+            if arrivals[0] > 1:
+                out.append(snap(f))
+        return local
+
+    def tracer(f, event, arg):
+        return local if f.f_code is fn.__code__ else None
+    old = sys.gettrace()
+    sys.settrace(tracer)
+    try:
+        fn(tokens, strong)
+    except Exception as e:  # noqa
+        sys.settrace(old)
+        # a raise inside iteration k leaves k-1 snapshots; the guard before the loop leaves none
+        return out, sexn(e)
+    finally:
+        sys.settrace(old)
+    return out, None
+
+
+def corr_trace(ck):
+    from chython.files.daylight.tokenize import smiles_tokenize
+    rng = random.Random(f'{ck.seed}:c03trace')
+    nq = 350 if ck.tier == 'quick' else 5000
+    seqs = []
+    for _ in range(nq):
+        seqs.append(ast_tokens(gen_ast(rng, maxn=10, bad=0.1)))
+    for _ in range(nq):
+        s = gen_smiles(rng) if rng.random() < 0.6 else corrupt(rng, gen_smiles(rng), alpha=ALPHA)
+        try:
+            seqs.append(smiles_tokenize(s))
+        except Exception:  # noqa
+            pass
+    alpha = token_alphabet()
+    for _ in range(nq // 2):
+        seqs.append([alpha[0]()] + [rng.choice(alpha)() for _ in range(rng.randint(1, 9))])
+    items = {True: [], False: []}
+    for ts in seqs:
+        if not ts or ts[0][0] not in (0, 8):
+            continue                                  # the guard before the loop is covered by the parser sweep
+        for strong in (False, True):
+            states, exc = parser_trace(ts, strong)
+            if exc is None and len(states) != len(ts):
+                ck.unchecked('parser trace', 'the tracer did not see one state per token', [stokens(ts)])
+                return False
+            if exc is not None and len(states) >= len(ts):
+                exc = None                            # raised after the loop (closures left open, bond at the end): not a step of the machine
+            items[strong].append((ts, ';'.join(states + ([exc] if exc else []))))
+            ck.count('trace:' + (exc or 'all tokens consumed'))
+        ck.case(('trace', stokens(ts)), nontrivial=len(ts) > 2)
+    bt = Batches(ck, 'c03trace', extra='Import ListNotations. Open Scope Z_scope.')
+    for strong in (False, True):
+        bt.add_chunked(f'b_trace {cbool(strong)}', items[strong], lambda ts: clist(ctoken(t) for t in ts), chunk=25)
+    n = len(items[True])
+    ck.extra['trace_sequences'] = n
+    ck.extra['trace_states'] = sum(e.count(';') + 1 for _, e in items[True])
+    saved = coqcases_imports[0]
+    coqcases_imports[0] = 'Tokenize Parser Reader ParserTrace'
+    try:
+        return bt.run(f'local variables of parser() after every token (atom_num, last_num, stack, cycles, previous, number of bonds; settrace) == '
+                      f'Coq machine state after every step, on {n} token sequences (syntax trees, tokenised generated and corrupted strings, random), both modes',
+                      single=lambda ts: clist(ctoken(t) for t in ts))
+    finally:
+        coqcases_imports[0] = saved
+
+
 def run(ck):
     import os, time
     only = os.environ.get('C03_STEPS')          # development aid: comma separated step names; the real check runs all
     only = set(only.split(',')) if only else None
     ck.trusted += ['translator tools/gen_tokens.py (Python ast: dict displays, regex pattern texts, character classes)',
-                   'translator tools/gen_elements.py (symbols and isotope keys)',
+                   'translator tools/gen_elements.py (symbols and isotope keys)', 'translator tools/gen_c03skel.py (ast.unparse text of the nine modelled functions)',
                    'correspondence runner harness/checks/C03.py + harness/coqcases.py', 'CachedMethods shim harness/boot.py',
                    'CPython 3.12.1 (re, str.split, str.isnumeric, int)', 'RDKit 2026.3 (search only)']
     ck.assumptions += ['the models (coq/model/Tokenize.v, Parser.v, Reader.v) are hand-written mirrors of tokenize.py, parser.py, smiles.py:smiles(), '
@@ -1518,7 +1671,7 @@ def run(ck):
     t = time.time()
     proved = True
     if only is None or 'proof' in only:
-        proved = common.standard_proof_steps(ck, translators=['tokens', 'elements'])
+        proved = common.standard_proof_steps(ck, translators=['tokens', 'elements', 'c03skel'])
     timings['proof'] = round(time.time() - t, 1)
     tied = True
     for name, f in STEPS:
@@ -1532,4 +1685,4 @@ def run(ck):
     ck.extra['tied'] = tied
 
 
-STEPS = [('tok', corr_tokenize), ('atom', corr_atom), ('parse', corr_parser), ('map', corr_mapping), ('read', corr_reader), ('ast', corr_denote), ('search', search)]
+STEPS = [('tok', corr_tokenize), ('atom', corr_atom), ('parse', corr_parser), ('map', corr_mapping), ('read', corr_reader), ('ast', corr_denote), ('cx', corr_contract), ('trace', corr_trace), ('search', search)]
